@@ -25,6 +25,17 @@
      layers and never transfer their parameters: the returned model computes a different function
      (C15_to_folded_as_coded_counterexample); what is proved is the intended conversion
      (C15_to_folded) and the as-coded one when the deleted batch norms are identities (…_partial).
+   * QConv2DBatchnorm accepts `data_format` and does not forward it: a channels_first request builds
+     a channels_last layer (§8: C15_ctor_conv_drops_data_format, C15_conv_data_format_counterexample,
+     partial C15_ctor_conv_data_format_partial; the depthwise class honours the argument).
+
+  Strengthening round: every statement quantifies over both data formats (`Geom.cf`; §8), and §9
+  puts HISTORIES on one layer object inside the theorems — `get_folded_weights`, `unfold_model` and
+  inference calls used repeatedly, interleaved with parameter replacements that are not training
+  steps (`variable.assign`, `set_weights` / `load_weights` with any `_iteration` value, quantizer
+  attributes replaced): the k-th use equals the first use of a fresh object holding the current
+  parameters (C15_history_fresh_twin), unfolding at any point uses the CURRENT parameters
+  (C15_history_unfold_current, C15_history_folded_weights_current).
 -/
 import QKV.Lemmas.Fold
 namespace QKV.Fold
@@ -49,7 +60,7 @@ theorem C15_fold_identity_depthwise (g : Geom) (dm : ℕ) (x k : T) (b oh ow co 
 
 /-- the reference: stock conv layer (no quantizers, no activation) followed by stock batch norm -/
 def convThenBN (L : Folded) (rs : ℚ → ℚ) (x : T) : T :=
-  L.bn.infer rs L.cfg.cout
+  L.bn.infer rs L.cfg.chan
     (Plain.call { cfg := L.cfg, kernel := L.kernel, bias := L.bias, qk := none, qb := none, act := none } x)
 
 /-- whole layer, both classes, both folding modes, with or without bias / gamma: without quantizers
@@ -72,7 +83,7 @@ theorem C15_fold_identity (L : Folded) (rs : ℚ → ℚ) (bs : BatchStats) (x :
     apply tabulate_congr
     intro t ht
     have hpos := cout_pos_of_lt_outLen ht
-    rw [atFlat_scale _ _ _ _ _ hpos, getD_tabulate _ (Nat.mod_lt _ hpos)]
+    rw [atFlat_scale _ _ _ _ _ hpos, getD_tabulate _ (chan_lt _ _ hpos)]
     ring
   | some bv =>
     simp only
@@ -80,7 +91,7 @@ theorem C15_fold_identity (L : Folded) (rs : ℚ → ℚ) (bs : BatchStats) (x :
     apply tabulate_congr
     intro t ht
     have hpos := cout_pos_of_lt_outLen ht
-    rw [atFlat_scale _ _ _ _ _ hpos, getD_tabulate _ (Nat.mod_lt _ hpos)]
+    rw [atFlat_scale _ _ _ _ _ hpos, getD_tabulate _ (chan_lt _ _ hpos)]
     ring
 
 /-- non-vacuity: a 1x1 conv2d, 1 channel, x = [3], kernel = [2], bias 1, gamma 4, beta 5, mean 1,
@@ -113,7 +124,7 @@ theorem C15_inference_ignores_batch_stats (L : Folded) (rs : ℚ → ℚ) (bs bs
 theorem C15_quantized_form (L : Folded) (rs : ℚ → ℚ) (bs : BatchStats) (x : T) (fk fb : T)
     (hw : L.foldedWeights rs = some (fk, fb)) :
     L.callInference rs bs x
-      = some (applyOpt L.act (biasAdd L.cfg.cout (convOp L.cfg x (applyOpt L.qk fk)) (applyOpt L.qb fb))) := by
+      = some (applyOpt L.act (biasAdd L.cfg.chan (convOp L.cfg x (applyOpt L.qk fk)) (applyOpt L.qb fb))) := by
   have hsel : selectStats L.mode false L.bn bs = (L.bn.var, L.bn.var, L.bn.mean) := by
     unfold selectStats; cases L.mode <;> simp
   unfold Folded.foldedWeights at hw
@@ -354,9 +365,9 @@ theorem C15_to_folded (S : ℕ → Bool) (mode : FoldMode) (rs : ℚ → ℚ) (x
 
 /-- a sequential conv → BN chain followed by a branch: hypotheses satisfiable, fold non-trivial -/
 def exPlain : Plain := { cfg := ⟨.conv, exGeom, 1⟩, kernel := [2], bias := some [1], qk := none, qb := none, act := none }
-def exNet : Net := .bin 3 (fun u v => List.zipWith (· + ·) u v) (.bn 2 exBN 1 (.conv 1 exPlain .input)) .input
+def exNet : Net := .bin 3 (fun u v => List.zipWith (· + ·) u v) (.bn 2 exBN exPlain.cfg.chan (.conv 1 exPlain .input)) .input
 example : exNet.foldable := by
-  simp [exNet, Net.foldable, exPlain, exBN, LayerCfg.cout]
+  simp [exNet, Net.foldable, exPlain, exBN]
 example : (exNet.fold (fun _ => true) .ema) =
     .bin 3 (fun u v => List.zipWith (· + ·) u v) (.folded 1 (foldLayer exPlain exBN .ema) .input) .input := rfl
 example : exNet.eval (fun _ => 1/2) [3] = some [20] := by decide +kernel
@@ -365,7 +376,7 @@ example : exNet.eval (fun _ => 1/2) [3] = some [20] := by decide +kernel
     — the BatchNormalization layers deleted, their parameters dropped — computes a different
     function: conv(x)=2*3+1=7 instead of BN(conv(x))=17 -/
 theorem C15_to_folded_as_coded_counterexample :
-    let n : Net := .bn 2 exBN 1 (.conv 1 exPlain .input)
+    let n : Net := .bn 2 exBN exPlain.cfg.chan (.conv 1 exPlain .input)
     n.eval (fun _ => 1/2) [3] = some [17] ∧ (n.dropBN (fun _ => true)).eval (fun _ => 1/2) [3] = some [7] := by
   constructor <;> decide +kernel
 
@@ -375,7 +386,7 @@ theorem C15_to_folded_as_coded_counterexample :
     x = -3: conv = -5, BN(relu(-5)) = BN(0) = 4/2*(0-1)+5 = 3, folded = relu(4/2*(-5-1)+5) = relu(-7) = 0 -/
 theorem C15_to_folded_activation_counterexample :
     let P : Plain := { exPlain with act := some relu }
-    let n : Net := .bn 2 exBN 1 (.conv 1 P .input)
+    let n : Net := .bn 2 exBN exPlain.cfg.chan (.conv 1 P .input)
     n.eval (fun _ => 1/2) [-3] = some [3] ∧ (n.fold (fun _ => true) .ema).eval (fun _ => 1/2) [-3] = some [0] := by
   constructor <;> decide +kernel
 
@@ -383,7 +394,7 @@ theorem C15_to_folded_activation_counterexample :
 def Net.droppedTrivial (S : ℕ → Bool) (rs : ℚ → ℚ) : Net → Prop
   | .input => True
   | .conv _ _ a => a.droppedTrivial S rs
-  | .bn _ p cout (.conv i _ a) => (S i = true → ∀ y, p.infer rs cout y = y) ∧ a.droppedTrivial S rs
+  | .bn _ p ch (.conv i _ a) => (S i = true → ∀ y, p.infer rs ch y = y) ∧ a.droppedTrivial S rs
   | .bn _ _ _ a => a.droppedTrivial S rs
   | .folded _ _ a => a.droppedTrivial S rs
   | .un _ _ a => a.droppedTrivial S rs
@@ -443,5 +454,247 @@ theorem C15_foldSite_complete (g : Graph) (i j : ℕ)
 example : foldSites [⟨.input, []⟩, ⟨.conv2d, [0]⟩, ⟨.bn, [1]⟩, ⟨.other, [2, 0]⟩] = [1] := by decide
 /-- a Conv2D read by its BN and by a second layer is not folded -/
 example : foldSites [⟨.input, []⟩, ⟨.conv2d, [0]⟩, ⟨.bn, [1]⟩, ⟨.other, [2, 1]⟩] = [] := by decide
+
+/-! ### 8. data_format
+
+  Every theorem above is stated for an arbitrary `Geom`, hence for both layouts (`cf = false`:
+  NHWC, `cf = true`: NCHW — the input read `xAt`, the output order `atFlat`, the channel of a flat
+  index `chan` used by `bias_add` and by the batch norm all follow the layout).  What is NOT uniform
+  is the constructor: `QDepthwiseConv2DBatchnorm` honours `data_format`, `QConv2DBatchnorm` accepts
+  the argument and drops it. -/
+
+/-- a channels_first depthwise layer is not the channels_last one on the same flat data (the layout
+    is really modelled): 1x1 kernel [1, 10] on 2 channels, x = [1,2,3,4] read as NCHW (1,2,1,2)
+    gives [1,2,30,40], read as NHWC (1,1,2,2) gives [1,20,3,40] -/
+def exGeomCF : Geom := { n := 1, h := 1, w := 2, cin := 2, kh := 1, kw := 1, sh := 1, sw := 1, dh := 1, dw := 1,
+                         same := false, cf := true }
+def exBN2 : BN := { gamma := none, beta := none, mean := [0, 0], var := [1, 1], eps := 0 }
+def exDwCF : Folded := { cfg := ⟨.dw, exGeomCF, 1⟩, mode := .ema, kernel := [1, 10], bias := none, bn := exBN2,
+                         qk := none, qb := none, act := none }
+example : exDwCF.callInference (fun _ => 1) noStats [1, 2, 3, 4] = some [1, 2, 30, 40] := by decide +kernel
+example : ({ exDwCF with cfg := ⟨.dw, { exGeomCF with cf := false }, 1⟩ } : Folded).callInference
+    (fun _ => 1) noStats [1, 2, 3, 4] = some [1, 20, 3, 40] := by decide +kernel
+example : convThenBN exDwCF (fun _ => 1) [1, 2, 3, 4] = [1, 2, 30, 40] := by decide +kernel
+
+/-- `QDepthwiseConv2DBatchnorm(data_format=…)` builds the layout that was asked for -/
+theorem C15_ctor_depthwise_keeps_data_format (c : LayerCfg) (h : c.cls = .dw) : ctorCfg c = c := by
+  unfold ctorCfg; simp [h]
+
+/-- AS CODED: `QConv2DBatchnorm(data_format=…)` is channels_last whatever was asked for; nothing
+    else of the configuration changes -/
+theorem C15_ctor_conv_drops_data_format (c : LayerCfg) (h : c.cls = .conv) :
+    (ctorCfg c).g.cf = false ∧ (ctorCfg c).cls = c.cls ∧ (ctorCfg c).cm = c.cm ∧
+      (ctorCfg c).g = { c.g with cf := false } := by
+  unfold ctorCfg; simp [h]
+
+/-- PARTIAL (what does hold for the conv class): the layer that is built equals conv → BN of the
+    layout that was BUILT (channels_last), and a channels_last request is honoured -/
+theorem C15_ctor_conv_data_format_partial (c : LayerCfg) (h : c.g.cf = false) : ctorCfg c = c := by
+  obtain ⟨cls, ⟨n, h', w, cin, kh, kw, sh, sw, dh, dw, same, cf⟩, cm⟩ := c
+  simp only at h
+  subst h
+  cases cls <;> rfl
+
+/-- COUNTEREXAMPLE (finding C15-conv-data-format-ignored): requested
+    `QConv2DBatchnorm(2, (1,1), data_format="channels_first")` on an input of shape (1,2,2,2),
+    kernel [[1,2],[10,20]] (cin x cout), identity batch norm: the layer that is built treats the
+    input as NHWC and returns [21,42,43,86,65,130,87,174], while Conv2D(channels_first) →
+    BatchNormalization(axis=1) with the same parameters gives [51,62,73,84,102,124,146,168] -/
+theorem C15_conv_data_format_counterexample :
+    let g : Geom := { n := 1, h := 2, w := 2, cin := 2, kh := 1, kw := 1, sh := 1, sw := 1, dh := 1, dw := 1,
+                      same := false, cf := true }
+    let req : Folded := { cfg := ⟨.conv, g, 2⟩, mode := .ema, kernel := [1, 2, 10, 20], bias := none, bn := exBN2,
+                          qk := none, qb := none, act := none }
+    let built : Folded := { req with cfg := ctorCfg req.cfg }
+    built.callInference (fun _ => 1) noStats [1, 2, 3, 4, 5, 6, 7, 8] = some [21, 42, 43, 86, 65, 130, 87, 174] ∧
+      convThenBN req (fun _ => 1) [1, 2, 3, 4, 5, 6, 7, 8] = [51, 62, 73, 84, 102, 124, 146, 168] := by
+  constructor <;> decide +kernel
+
+/-! ### 9. histories on one layer object
+
+  Uses of the SAME object one after the other — `get_folded_weights`, `unfold_model`, inference
+  calls (on inputs of any shape), interleaved with replacements of the parameters that are not
+  training steps (`variable.assign`, `set_weights` / `load_weights` with any `iteration` value).
+  The k-th use behaves exactly like the first use of a fresh object holding the current parameters. -/
+
+/-- observing a layer does not change it -/
+theorem C15_history_observers_pure (rs : ℚ → ℚ) (o : Obj) (op : Op) (h : op.observer = true) :
+    (o.step rs op).1 = o := by
+  cases op <;> simp_all [Obj.step, Op.observer]
+
+/-- no observation depends on the `_iteration` counter (nothing is keyed on the training step) -/
+theorem C15_history_iteration_irrelevant (rs : ℚ → ℚ) (L : Folded) (i j : ℤ) (op : Op)
+    (h : op.observer = true) :
+    (({ L := L, iteration := i } : Obj).step rs op).2 = (({ L := L, iteration := j } : Obj).step rs op).2 := by
+  cases op <;> simp_all [Obj.step, Op.observer]
+
+theorem Obj.run_append (rs : ℚ → ℚ) (o : Obj) (ops ops' : List Op) :
+    o.run rs (ops ++ ops') = (((o.run rs ops).1.run rs ops').1, (o.run rs ops).2 ++ ((o.run rs ops).1.run rs ops').2) := by
+  induction ops generalizing o with
+  | nil => simp [Obj.run]
+  | cons op ops ih => simp [Obj.run, ih]
+
+/-- FRESH TWIN: after ANY history `ops` the next observation is the one a fresh object (never used,
+    `_iteration = -1`) built from the current parameters gives; the earlier observations are not
+    disturbed -/
+theorem C15_history_fresh_twin (rs : ℚ → ℚ) (o : Obj) (ops : List Op) (op : Op) (h : op.observer = true) :
+    (o.run rs (ops ++ [op])).2
+      = (o.run rs ops).2 ++ [(({ L := (o.run rs ops).1.L } : Obj).step rs op).2] ∧
+    (o.run rs (ops ++ [op])).1 = (o.run rs ops).1 := by
+  rw [Obj.run_append]
+  constructor
+  · have := C15_history_iteration_irrelevant rs (o.run rs ops).1.L (o.run rs ops).1.iteration (-1) op h
+    simp only [Obj.run, List.cons.injEq, and_true, List.append_cancel_left_eq]
+    exact this
+  · simp only [Obj.run]
+    exact C15_history_observers_pure rs _ op h
+
+/-- `unfold_model` at ANY point of a history: the unfolded layer holds `get_folded_weights()` of the
+    CURRENT parameters and computes what the folded layer computes NOW -/
+theorem C15_history_unfold_current (rs : ℚ → ℚ) (o : Obj) (ops : List Op) (n h w : ℕ) (x : T) :
+    ((o.run rs ops).1.step rs (.unfold n h w x)).2
+      = .unfolded (((o.run rs ops).1.L.onInput n h w).foldedWeights rs)
+                  (((o.run rs ops).1.L.onInput n h w).callInference rs noStats x) := by
+  generalize (o.run rs ops).1 = o'
+  simp only [Obj.step]
+  have hu := C15_unfold (o'.L.onInput n h w) rs noStats x
+  cases hU : (o'.L.onInput n h w).unfold rs with
+  | none =>
+    have := (C15_callable (o'.L.onInput n h w) rs noStats x).2.2
+    simp [hU] at this
+  | some P =>
+    have hw := (C15_unfold_weights _ rs P hU).1
+    rw [hU] at hu
+    simp only [Option.map_some] at hu ⊢
+    rw [hw, ← hu]
+
+/-- the folded weights do not depend on the input shape the layer is used on -/
+theorem C15_foldedWeights_onInput (L : Folded) (rs : ℚ → ℚ) (n h w : ℕ) :
+    (L.onInput n h w).foldedWeights rs = L.foldedWeights rs := by
+  unfold Folded.foldedWeights Folded.onInput LayerCfg.withInput scaleKernel LayerCfg.cout
+  rfl
+
+/-- `get_folded_weights()` at ANY point of a history is the formula of the property evaluated on
+    the CURRENT kernel, bias and batch-norm vectors -/
+theorem C15_history_folded_weights_current (rs : ℚ → ℚ) (o : Obj) (ops : List Op)
+    (hs : WellShaped (o.run rs ops).1.L) :
+    ∃ fk fb, ((o.run rs ops).1.step rs .getFolded).2 = .weights (some (fk, fb)) ∧
+      (∀ t, t < (o.run rs ops).1.L.kernel.length →
+        fk.getD t 0 = (o.run rs ops).1.L.kernel.getD t 0
+                        * invSpec (o.run rs ops).1.L.bn rs (kernelChannel (o.run rs ops).1.L.cfg t)) ∧
+      (∀ c, c < (o.run rs ops).1.L.cfg.cout →
+        fb.getD c 0 = ((match (o.run rs ops).1.L.bias with | none => 0 | some b => b.getD c 0)
+              - (o.run rs ops).1.L.bn.mean.getD c 0) * invSpec (o.run rs ops).1.L.bn rs c
+            + (match (o.run rs ops).1.L.bn.beta with | none => 0 | some bt => bt.getD c 0)) := by
+  generalize (o.run rs ops).1 = o' at *
+  have hc := (C15_callable o'.L rs noStats []).2.1
+  obtain ⟨⟨fk, fb⟩, hw⟩ := Option.isSome_iff_exists.mp hc
+  refine ⟨fk, fb, by simp [Obj.step, hw], ?_, ?_⟩
+  · exact (C15_folded_weights_spec o'.L rs fk fb hs hw).2.2.1
+  · exact (C15_folded_weights_spec o'.L rs fk fb hs hw).2.2.2
+
+/-- reading a variable -/
+def Folded.get (L : Folded) : Slot → Option T
+  | .kernel => some L.kernel
+  | .bias => L.bias
+  | .gamma => L.bn.gamma
+  | .beta => L.bn.beta
+  | .mean => some L.bn.mean
+  | .var => some L.bn.var
+
+/-- `variable.assign(v)`: that variable now reads `v`, every other variable and the whole
+    configuration (geometry, folding mode, epsilon, quantizers, activation) are untouched -/
+theorem C15_assign_spec (L L' : Folded) (s : Slot) (v : T) (h : L.assign s v = some L') :
+    L'.get s = some v ∧ (∀ s', s' ≠ s → L'.get s' = L.get s') ∧
+      L'.cfg = L.cfg ∧ L'.mode = L.mode ∧ L'.bn.eps = L.bn.eps ∧ L'.qk = L.qk ∧ L'.qb = L.qb ∧ L'.act = L.act := by
+  cases s <;> simp only [Folded.assign] at h
+  case kernel => cases h; refine ⟨rfl, ?_, rfl, rfl, rfl, rfl, rfl, rfl⟩; intro s' hs; cases s' <;> simp_all [Folded.get]
+  case mean => cases h; refine ⟨rfl, ?_, rfl, rfl, rfl, rfl, rfl, rfl⟩; intro s' hs; cases s' <;> simp_all [Folded.get]
+  case var => cases h; refine ⟨rfl, ?_, rfl, rfl, rfl, rfl, rfl, rfl⟩; intro s' hs; cases s' <;> simp_all [Folded.get]
+  case bias =>
+    split at h
+    · cases h; refine ⟨rfl, ?_, rfl, rfl, rfl, rfl, rfl, rfl⟩; intro s' hs; cases s' <;> simp_all [Folded.get]
+    · cases h
+  case gamma =>
+    split at h
+    · cases h; refine ⟨rfl, ?_, rfl, rfl, rfl, rfl, rfl, rfl⟩; intro s' hs; cases s' <;> simp_all [Folded.get]
+    · cases h
+  case beta =>
+    split at h
+    · cases h; refine ⟨rfl, ?_, rfl, rfl, rfl, rfl, rfl, rfl⟩; intro s' hs; cases s' <;> simp_all [Folded.get]
+    · cases h
+
+/-- `set_weights(get_weights())` is the identity on the object (checkpoint round trip) -/
+theorem C15_setWeights_getWeights (o : Obj) : o.setWeights o.getWeights = some o := by
+  obtain ⟨⟨cfg, mode, kernel, bias, ⟨gamma, beta, mean, var, eps⟩, qk, qb, act⟩, it⟩ := o
+  cases bias <;> cases gamma <;> cases beta <;>
+    simp [Obj.setWeights, Obj.getWeights, takeIf, Rat.floor_intCast]
+
+/-- `set_weights(ws)` succeeds exactly on lists laid out like `get_weights()` — kernel, the
+    existing ones of bias / gamma / beta, then iteration, moving mean, moving variance — and then the
+    object holds exactly these arrays, WHATEVER `iteration` value the list carries; the
+    configuration (geometry, folding mode, epsilon, quantizers, activation) is untouched -/
+theorem C15_setWeights_spec (o o' : Obj) (ws : List T) (h : o.setWeights ws = some o') :
+    o'.L.cfg = o.L.cfg ∧ o'.L.mode = o.L.mode ∧ o'.L.bn.eps = o.L.bn.eps ∧ o'.L.qk = o.L.qk ∧
+      o'.L.qb = o.L.qb ∧ o'.L.act = o.L.act ∧
+      o'.L.bias.isSome = o.L.bias.isSome ∧ o'.L.bn.gamma.isSome = o.L.bn.gamma.isSome ∧
+      o'.L.bn.beta.isSome = o.L.bn.beta.isSome ∧
+      ∃ it, ws = o'.L.kernel :: (o'.L.bias.toList ++ (o'.L.bn.gamma.toList ++ (o'.L.bn.beta.toList
+                ++ [it, o'.L.bn.mean, o'.L.bn.var]))) ∧ o'.iteration = (it.getD 0 0).floor := by
+  unfold Obj.setWeights at h
+  cases ws with
+  | nil => simp at h
+  | cons k r0 =>
+    simp only [Option.bind_eq_some_iff] at h
+    obtain ⟨br, hb, gr, hg, tr, ht, h⟩ := h
+    obtain ⟨hb1, hb2⟩ := takeIf_some hb
+    obtain ⟨hg1, hg2⟩ := takeIf_some hg
+    obtain ⟨ht1, ht2⟩ := takeIf_some ht
+    split at h
+    · rename_i it m v hr
+      simp only [Option.some.injEq] at h
+      subst h
+      refine ⟨rfl, rfl, rfl, rfl, rfl, rfl, hb1, hg1, ht1, it, ?_, rfl⟩
+      simp only
+      rw [hb2, hg2, ht2, hr]
+    · simp at h
+/-- the quantizer attributes replaced on a live layer: the folded weights are untouched, and every
+    later inference call is the quantized form with the NEW quantizers on the current folded weights -/
+theorem C15_history_reconfigure (rs : ℚ → ℚ) (o : Obj) (qk qb : Option (T → T)) :
+    ((o.step rs (.reconfigure qk qb)).1.step rs .getFolded).2 = (o.step rs .getFolded).2 ∧
+    ∀ (n h w : ℕ) (x fk fb : T), (o.L.onInput n h w).foldedWeights rs = some (fk, fb) →
+      ((o.step rs (.reconfigure qk qb)).1.step rs (.predict n h w x)).2
+        = .out (some (applyOpt o.L.act (biasAdd (o.L.onInput n h w).cfg.chan
+            (convOp (o.L.onInput n h w).cfg x (applyOpt qk fk)) (applyOpt qb fb)))) := by
+  constructor
+  · simp [Obj.step, Folded.foldedWeights]
+  · intro n h w x fk fb hw
+    simp only [Obj.step]
+    have := C15_quantized_form (({ o.L with qk := qk, qb := qb } : Folded).onInput n h w) rs noStats x fk fb
+      (by simpa [Folded.foldedWeights, Folded.onInput] using hw)
+    rw [this]
+    rfl
+
+/-- unfolding after ANY sequence of parameter replacements inside a network preserves the function
+    of the network as it is THEN -/
+theorem C15_history_unfold_model (rs : ℚ → ℚ) (x : T) (n : Net) (edits : List (ℕ × Slot × T)) (n' : Net)
+    (h : (edits.foldl (fun m e => m.assign e.1 e.2.1 e.2.2) n).unfoldAll rs = some n') :
+    n'.eval rs x = (edits.foldl (fun m e => m.assign e.1 e.2.1 e.2.2) n).eval rs x :=
+  C15_unfold_model rs x _ n' h
+
+/-- a history on the layer of `exL` (kernel 2, bias 1, gamma 4, beta 5, mean 1, rs ≡ 1/2):
+    get_folded_weights → ([4],[5]); kernel := 3; get_folded_weights → ([6],[5]) (a memo keyed on
+    `_iteration` would still say ([4],[5])); set_weights([kernel 1, bias 3, gamma 2, beta 0,
+    iteration -1, mean 1, var 1]) → unfold gives the layer ([1],[2]) computing 1*3+2 = 5 = the
+    folded layer's output; assigning a bias to a layer without bias raises -/
+example : (({ L := exL } : Obj).run (fun _ => 1/2)
+      [.getFolded, .assign .kernel [3], .getFolded,
+       .setWeights [[1], [3], [2], [0], [-1], [1], [1]], .unfold 1 1 1 [3], .predict 1 1 1 [3]]).2
+    = [.weights (some ([4], [5])), .done true, .weights (some ([6], [5])), .done true,
+       .unfolded (some ([1], [2])) (some [5]), .out (some [5])] := by decide +kernel
+example : (({ L := { exL with bias := none } } : Obj).step (fun _ => 1/2) (.assign .bias [3])).2 = .done false := by
+  decide +kernel
+example : (({ L := exL } : Obj).step (fun _ => 1/2) (.setWeights [[1], [3]])).2 = .done false := by
+  decide +kernel
 
 end QKV.Fold
